@@ -291,19 +291,42 @@ Section ReadProofs.
       + intros [Hv|Hv]; [|auto]. subst v. unfold Sql.col_scan in E1. rewrite Hc in E1. discriminate.
   Qed.
 
-  Lemma alloc_no_co names conf : q_coerce conf = None -> no_co (alloc_columns names conf).
+  (* the allocation loop: it fails exactly when a column of the result set is bound to an entry without
+     function; otherwise it builds alloc_plain *)
+  Lemma alloc_columns_eq names conf :
+    alloc_columns names conf = if coerce_nil_hit conf names then Fail else Ok (alloc_plain names conf).
   Proof.
-    intros H. unfold alloc_columns, no_co. rewrite H. apply Forall_forall. intros c Hc.
+    induction names as [|n names IH]; [reflexivity|].
+    cbn [alloc_columns coerce_nil_hit existsb alloc_plain map]. fold (coerce_nil_hit conf names).
+    fold (alloc_plain names conf). rewrite IH.
+    unfold coerce_entry, coerce_lookup. destruct (q_coerce conf) as [m|].
+    - destruct (coerce_find m n) as [[k|]|]; cbn [orb]; try reflexivity;
+        destruct (coerce_nil_hit conf names); reflexivity.
+    - cbn [orb]. destruct (coerce_nil_hit conf names); reflexivity.
+  Qed.
+
+  Lemma coerce_nil_hit_none names conf : q_coerce conf = None -> coerce_nil_hit conf names = false.
+  Proof.
+    intros H. unfold coerce_nil_hit, coerce_entry. rewrite H. induction names as [|n names IH]; [reflexivity|exact IH].
+  Qed.
+
+  Lemma alloc_columns_none names conf : q_coerce conf = None -> alloc_columns names conf = Ok (alloc_plain names conf).
+  Proof. intros H. rewrite alloc_columns_eq, coerce_nil_hit_none by exact H. reflexivity. Qed.
+
+  Lemma alloc_no_co names conf : q_coerce conf = None -> no_co (alloc_plain names conf).
+  Proof.
+    intros H. unfold alloc_plain, no_co. rewrite H. apply Forall_forall. intros c Hc.
     apply in_map_iff in Hc as (n & <- & _). reflexivity.
   Qed.
 
   Lemma read_row_eq conf names columns colNames row :
     q_coerce conf = None ->
     read_row conf names (columns, colNames) row =
-    do cols' <- scan_row (match columns with [] => alloc_columns names conf | _ => columns end) row;
+    do cols' <- scan_row (match columns with [] => alloc_plain names conf | _ => columns end) row;
     Ok (cols', match columns with [] => names | _ => colNames end).
   Proof.
-    intros Hco. unfold Sql.read_row. rewrite Hco. destruct columns; reflexivity.
+    intros Hco. unfold Sql.read_row. destruct columns; [|reflexivity].
+    rewrite alloc_columns_none by exact Hco. rewrite Hco. reflexivity.
   Qed.
 
   Lemma read_row_other conf names st row st' :
@@ -311,7 +334,7 @@ Section ReadProofs.
     no_co (fst st') /\ ~ In DOther row.
   Proof.
     intros Hco Hno. destruct st as [columns colNames]. rewrite read_row_eq by exact Hco.
-    set (cols0 := match columns with [] => alloc_columns names conf | _ => columns end).
+    set (cols0 := match columns with [] => alloc_plain names conf | _ => columns end).
     assert (Hno0 : no_co cols0).
     { subst cols0. destruct columns; [now apply alloc_no_co|exact Hno]. }
     destruct (scan_row cols0 row) as [cols'| |] eqn:E; simpl; try discriminate.
@@ -623,7 +646,7 @@ Section ReadProofs.
   Proof.
     intros Hco. induction rs as [|r rs IH]; intros k cols Hlen; [reflexivity|].
     rewrite read_rows_cons. rewrite read_row_eq by exact Hco. cbn [run_rows].
-    assert (Hc0 : match cols with [] => alloc_columns names conf | _ => cols end = cols).
+    assert (Hc0 : match cols with [] => alloc_plain names conf | _ => cols end = cols).
     { destruct cols; auto. destruct names; [reflexivity|discriminate]. }
     assert (Hn0 : match cols with [] => names | _ => names end = names) by (destruct cols; auto).
     rewrite Hc0, Hn0.
@@ -634,11 +657,11 @@ Section ReadProofs.
   Lemma read_rows_first conf names r rs :
     q_coerce conf = None ->
     read_rows conf names None 0 ([], []) (r :: rs)
-    = do cs <- run_rows (alloc_columns names conf) (r :: rs); Ok (cs, names).
+    = do cs <- run_rows (alloc_plain names conf) (r :: rs); Ok (cs, names).
   Proof.
     intros Hco. rewrite read_rows_cons. rewrite read_row_eq by exact Hco. cbn [run_rows].
-    destruct (scan_row (alloc_columns names conf) r) as [cols'| |] eqn:E; simpl; auto.
-    apply read_rows_run; auto. rewrite (scan_row_length _ _ _ E). unfold alloc_columns. now rewrite map_length.
+    destruct (scan_row (alloc_plain names conf) r) as [cols'| |] eqn:E; simpl; auto.
+    apply read_rows_run; auto. rewrite (scan_row_length _ _ _ E). unfold alloc_plain. now rewrite map_length.
   Qed.
 
   (* ---------------------------------------------------------------- the result map and qframe.New *)
@@ -749,8 +772,8 @@ Section ReadProofs.
     assert (Hdslen : length ds = length names).
     { apply opt_all_length in C4. now rewrite map_length, seq_length in C4. }
     set (dc := new_column (q_precision conf) None).
-    assert (Halloc : alloc_columns names conf = map (fun _ => dc) names).
-    { unfold alloc_columns. now rewrite Hco. }
+    assert (Halloc : alloc_plain names conf = map (fun _ => dc) names).
+    { unfold alloc_plain. now rewrite Hco. }
     (* the final state of every column *)
     set (fin := fun j => match scan_col dc (column_vals rows j) with Ok c => c | _ => dc end).
     set (finals := map fin (seq 0 (length names))).
@@ -767,7 +790,7 @@ Section ReadProofs.
       rewrite Hn. fold dc in Hc. repeat split; auto.
       rewrite Hl. unfold column_vals. now rewrite map_length. }
     assert (Hfinlen : length finals = length names) by (subst finals; now rewrite map_length, seq_length).
-    assert (Hrun : run_rows (alloc_columns names conf) rows = Ok finals).
+    assert (Hrun : run_rows (alloc_plain names conf) rows = Ok finals).
     { apply run_rows_cols with (dc := dc).
       - intros r Hr. rewrite Halloc, map_length. apply Nat.eqb_eq. now apply C1.
       - now rewrite Halloc, map_length.
@@ -1153,11 +1176,11 @@ Section ReadNoPanic.
     end.
   Proof.
     intros Hco [Hno Hlen]. destruct st as [columns colNames]. rewrite read_row_eq by exact Hco.
-    set (cols0 := match columns with [] => alloc_columns names conf | _ => columns end).
+    set (cols0 := match columns with [] => alloc_plain names conf | _ => columns end).
     set (cn0 := match columns with [] => names | _ => colNames end).
     assert (Hno0 : no_co cols0) by (subst cols0; destruct columns; [now apply alloc_no_co|exact Hno]).
     assert (Hlen0 : (length cols0 <= length cn0)%nat).
-    { subst cols0 cn0. destruct columns; [unfold alloc_columns; now rewrite map_length|exact Hlen]. }
+    { subst cols0 cn0. destruct columns; [unfold alloc_plain; now rewrite map_length|exact Hlen]. }
     destruct (scan_row fixed pf cols0 row) as [cols'| |] eqn:E; simpl; auto.
     - split; simpl.
       + eapply scan_row_other; eauto.
